@@ -23,7 +23,7 @@ RULE = (
     "Distinct by rendered expression."
 )
 ASSUMPTIONS = [
-    "expressions whose reference automaton has 1200 or more states are not judged (compilation time grows with the automaton, which nested counted groups make exponential in the text; a time limit cannot tell slow from stuck)",
+    "expressions that unfold to 400 or more atoms (nested counted groups multiply) or whose reference automaton has 1200 or more states are not judged (compilation time grows with the automaton, which nested counted groups make exponential in the text; a time limit cannot tell slow from stuck)",
     "{n,m} with m < n is unspecified upstream and not generated",
     "'rejected' = Schema(...) raises any exception (the port signals malformed expressions with SyntaxError, and with "
     "TypeError when the expression ends where an atom is expected)",
@@ -103,6 +103,7 @@ def generate(R: Draw, tier: str) -> dict:
     return {"mode": R.choice(["block", "block", "inline"]), "expr": s, "malformed_by_construction": True}
 
 
+LARGE_EXPANSION = 400  # unfolded size of the expression text (gen.exprs.expansion): the library's NFA grows with it even when the minimal automaton is small
 LARGE_AUTOMATON = 1200  # reference derivative states; above this a case is inconclusive (see check)
 
 
@@ -147,7 +148,7 @@ def check(case: dict, ctx: Ctx) -> None:
     except SpecError as e:
         rs = None
         ref_err = str(e)
-    if rs is not None and len(rx.states(rs.content["host"], limit=LARGE_AUTOMATON)) >= LARGE_AUTOMATON:
+    if rs is not None and (ge.expansion(case["expr"]) >= LARGE_EXPANSION or len(rx.states(rs.content["host"], limit=LARGE_AUTOMATON)) >= LARGE_AUTOMATON):
         # nested counted groups / ambiguous repetitions unfold to automata of tens of thousands of states; compiling
         # them takes minutes without being wrong, and a time limit could not tell slow from stuck: inconclusive
         ctx.label("skipped:automaton-too-large")
